@@ -31,7 +31,7 @@ ASSUMPTIONS = ['signs of the reference release\'s Riemann-Siegel Z (mpmath 1.3.0
                'used only to decide where the sweep refines, not for any violation',
                'the table BASE of (T_k, N(T_k)) was produced by the same sweep from t = 0; a sweep of block k re-verifies '
                'N(T_k+1) - N(T_k) in every run']
-SHARD_TIMEOUT = {'quick': 900, 'thorough': 3400}
+SHARD_TIMEOUT = {'quick': 1500, 'thorough': 9000}      # hang detection only; generous because the machine is shared
 LEVEL_TEXT = ('exploration: every sampled zero index is verified by counting sign changes of an independently evaluated Z(t) '
               'from a tabulated height (chain of blocks re-verified from t = 0 by the run) and by a sign change of Z in a '
               '2^(10-p) relative bracket around the returned ordinate; nzeros/backlunds are compared with the oracle count at a '
@@ -403,7 +403,6 @@ def check_block(mp, rec, r, tier, n0, n1):
     t_a, t_b = BASE_N[n0], BASE_N[n1]
     orc = ZOracle()
     R = orc.R
-    t0 = time.time()
     sw = Sweep(orc, t_a, t_b)
     pts = sw.points
     local = count_changes(pts)
@@ -457,7 +456,22 @@ def check_block(mp, rec, r, tier, n0, n1):
                 special.add(n0 + c)          # Gram interval with 0 or >= 2 zeros
                 rec.event('Gram intervals not containing exactly one zero', 1)
             last_gram = (c, m)
-    rec.event('oracle seconds (sweep)', int(time.time() - t0))
+    # the tree's own Gram points as heights for nzeros (t equal to a subdivision point of the tree's block search):
+    # around every irregular Gram interval and every 4th otherwise
+    near = set()
+    for n in special:
+        near.update(range(n - 3, n + 2))
+    tgram = []
+    for m in range(m_lo, m_hi + 1):
+        if m in near or m % 4 == 0 or (tier == 'thorough' and m % 2 == 0):
+            try:
+                gt = to_fraction(mp.grampoint(m))
+            except Exception:
+                continue
+            if Fraction(t_a) < gt < Fraction(t_b):
+                s = orc.zsign(gt)
+                if s is not None:
+                    tgram.append((gt, s, m))
 
     idxs = select_indices(r, n0, n1, tier, special)
     p = mp.prec
@@ -503,7 +517,8 @@ def check_block(mp, rec, r, tier, n0, n1):
         verdict_points.append((lo, slo, ('lo', n, k)))
         verdict_points.append((hi, shi, ('hi', n, k)))
     rec.event('bracket signs from the tree siegelz at 3p (second source)', treez.calls)
-    allp = sorted([(Fraction(t), s, None) for t, s in pts] + [(Fraction(g), s, ('gram', m)) for g, s, m in gram] + verdict_points,
+    allp = sorted([(Fraction(t), s, None) for t, s in pts] + [(Fraction(g), s, ('gram', m)) for g, s, m in gram] +
+                  [(g, s, ('tgram', m)) for g, s, m in tgram] + verdict_points,
                   key=lambda x: x[0])
     c = 0
     count_at = {}
@@ -582,7 +597,13 @@ def check_block(mp, rec, r, tier, n0, n1):
         cc = count_at.get(('gram', m))
         if cc:
             heights.append((Fraction(g), n0 + cc[0], 'gram'))
+    for g, s, m in tgram:
+        cc = count_at.get(('tgram', m))
+        if cc:
+            heights.append((g, n0 + cc[0], 'tree-gram'))
     for n, gam in brackets:
+        if tier == 'thorough' and n % 2 and n not in special:
+            continue
         if ('lo', n) in count_at and count_at[('hi', n)][0] - count_at[('lo', n)][0] == 1 and count_at[('lo', n)][1][2] == 0:
             lo = gam - gam * Fraction(1, 1 << (p - 10))
             hi = gam + gam * Fraction(1, 1 << (p - 10))
@@ -695,7 +716,7 @@ def check_counts(mp, rec, R, heights, p, bstep=1):
         rec.case(('nzeros', str(q)), True, cls='nzeros/' + kind)
         if got != N or not isinstance(got, int):
             rec.violation('C41/nzeros/' + kind, 'nzeros(t) differs from the number of sign changes of Z below t', case, got, N)
-        if kind in ('gap', 'gram') and hi_ % bstep == 0:
+        if kind in ('gap', 'gram', 'tree-gram') and hi_ % bstep == 0:
             # backlunds: S(t) = N(t) - 1 - theta(t)/pi, theta from the reference release at p+60 bits
             old = rmp.prec
             rmp.prec = p + 60
@@ -769,7 +790,7 @@ def required(agg, tier):
         miss.append('no block swept')
     if ev.get('blocks whose sign-change count equals the tabulated N(T_k+1) - N(T_k)', 0) != nb:
         miss.append('the oracle sweep disagrees with the table BASE in %d block(s)' % (nb - ev.get('blocks whose sign-change count equals the tabulated N(T_k+1) - N(T_k)', 0)))
-    for c in ('zetazero/regular', 'zetazero/gram-failure-region', 'index/regular', 'nzeros/gap', 'nzeros/gram', 'nzeros/below-zero',
+    for c in ('zetazero/regular', 'zetazero/gram-failure-region', 'index/regular', 'nzeros/gap', 'nzeros/gram', 'nzeros/tree-gram', 'nzeros/below-zero',
               'nzeros/above-zero', 'backlunds/gap', 'grampoint', 'conjugate', 'monotonic'):
         if not agg['classes'].get(c):
             miss.append('class %s never observed' % c)
